@@ -279,7 +279,7 @@ def _mem_limit():
     """address-space cap per case (GB): a case that outgrows it gets a MemoryError and is reported inconclusive instead of
     inviting the kernel's OOM killer"""
     try:
-        return float(os.environ.get("VERIF_CASE_MEM_GB", "10" if tier() == "quick" else "14"))
+        return float(os.environ.get("VERIF_CASE_MEM_GB", "10" if tier() == "quick" else "24"))
     except ValueError:
         return 10.0
 
